@@ -84,3 +84,10 @@ func VerifC02MinWrap() {
 	}
 	verifnd.Reach("C02.min.accepted")
 }
+
+// VerifC11MinWrap: arbitrary first-flight bytes never crash the min transport
+// (VerifC02MinWrap's exploration, implicit obligations only).
+func VerifC11MinWrap() {
+	verifnd.PanicsOnly()
+	VerifC02MinWrap()
+}
